@@ -192,14 +192,17 @@ var unqueuedCmdTable = map[string]bool{
 }
 
 func (ctx *cmdContext) info(cs *clientState) string {
-	// take complete ownership of the data store
-	ctx.dsc.acquireExclusive()
-	defer ctx.dsc.releaseExclusive()
-
-	return ctx.infoUnlocked(cs)
+	// the watched keys of the client may be in any database: each is looked at
+	// under the lock of its own data store, one lock at a time
+	return ctx.infoWorker(cs, isAbortedExecElsewhere(cs, nil))
 }
 
+// for callers that own the data store of ctx (EXEC): only that data store is looked at
 func (ctx *cmdContext) infoUnlocked(cs *clientState) string {
+	return ctx.infoWorker(cs, isAbortedExecUnlocked(cs, ctx.dsc.ds))
+}
+
+func (ctx *cmdContext) infoWorker(cs *clientState, abortedExec bool) string {
 	info := cs.client.ClientInfo()
 
 	multi := -1
@@ -215,7 +218,7 @@ func (ctx *cmdContext) infoUnlocked(cs *clientState) string {
 	if cs.client.IsCloseRequested() {
 		flags.WriteRune('c')
 	}
-	if isAbortedExecUnlocked(cs, ctx.dsc.ds) {
+	if abortedExec {
 		flags.WriteRune('d')
 	}
 	if cs.isMultiInProgress() {
